@@ -185,6 +185,9 @@ func (e *Encoder) writeValue(val reflect.Value, tagType byte) error {
 		} else {
 			str = []byte(val.String())
 		}
+		if len(str) > math.MaxInt16 {
+			return fmt.Errorf("string of %d bytes is too long for TagString", len(str))
+		}
 		if err := writeInt16(e.w, int16(len(str))); err != nil {
 			return err
 		}
@@ -362,6 +365,9 @@ func writeTag(w io.Writer, tagType byte, tagName string) error {
 		return err
 	}
 	bName := []byte(tagName)
+	if len(bName) > math.MaxInt16 {
+		return fmt.Errorf("tag name of %d bytes is too long", len(bName))
+	}
 	if err := writeInt16(w, int16(len(bName))); err != nil {
 		return err
 	}
